@@ -17,7 +17,7 @@ PROPERTY = "C17"
 LEVEL = "exploration"
 RULE = (
     "objects: every example file that reads, the generated family and its one-step mutations (duplicated / blank / "
-    "case-variant mnemonics, text and float curves), read with mnemonic_case upper and preserve, and every section "
+    "case-variant mnemonics, text and float curves), read with mnemonic_case upper and preserve and additionally after an in-memory crop of the index, and every section "
     "state reachable by an operation history of depth <= 2 (thorough 3) from C13's seven roots (stale suffixes, literal "
     "'A:1' names included); copiers: pickle protocols 0..5 and copy.deepcopy applied to the LASFile, each section and "
     "the first/last item of each section; oracle: strict canonical equality (session + original mnemonics, unit, value, "
@@ -53,6 +53,8 @@ def points(tier):
             continue
         for case in ("upper", "preserve"):
             pts.append(["file", tier, i, case])
+        # the same object after an in-memory edit of the index (first sample dropped from every curve)
+        pts.append(["file", tier, i, "upper", "crop-top"])
     depth = 2 if tier == "quick" else 3
     for root in c13.ROOTS:
         pts.append(["state", root, [], depth])
@@ -267,7 +269,18 @@ def check_point(pt, only=None):
     if pt[0] == "file":
         name, text = _inputs(pt[1])[pt[2]]
         case = pt[3]
-        v, nt, oc, counters, evals = check_las(lambda: lasio.read(text, mnemonic_case=case), name + "|" + case, pt)
+        edit = pt[4] if len(pt) > 4 else None
+
+        def make():
+            las = lasio.read(text, mnemonic_case=case)
+            if edit == "crop-top":
+                if not len(las.curves) or len(las.curves[0].data) < 3:
+                    raise ValueError("nothing to crop")
+                for c in las.curves:
+                    c.data = c.data[1:]
+            return las
+
+        v, nt, oc, counters, evals = check_las(make, name + "|" + case + ("|" + edit if edit else ""), pt)
         return v, ((repr(pt), 1) if nt else None), oc, counters, evals
     return check_state_family(pt[1], pt[3], pt, only)
 
